@@ -274,34 +274,7 @@ def _worker(args):
     by_id = {}
     for line in lines:
         by_id[line.split(' ', 1)[0]] = line
-    for key, mo in model.items():
-        if key == '__bad__':
-            continue
-        cid, _, k = key.rpartition('.')
-        line = by_id.get(cid)
-        io = impl.get(key, {})
-        stats['pairs'] += 1
-        i_m = io.get('M')
-        m_m = mo.get('M')
-        m_s = mo.get('S')
-        if i_m is None:
-            fails.append(('missing', line, int(k), 'no implementation observation (crash / hang?)'))
-            continue
-        res = prop.compare(line, int(k), i_m, m_m, m_s)
-        oc = res.get('outcome', '?')
-        stats['outcomes'][oc] = stats['outcomes'].get(oc, 0) + 1
-        if res.get('nontrivial'):
-            stats['nontrivial'] += 1
-        if not res['pred']:
-            stats['pred_fail'] += 1
-            if len(fails) < 200:
-                fails.append(('pred', line, int(k), res.get('why', '') + f' || impl: {i_m} || model: {m_m} || spec: {m_s}'))
-        elif not res['corr']:
-            stats['corr_disagree'] += 1
-            if len(fails) < 200:
-                fails.append(('corr', line, int(k), f'impl: {i_m} || model: {m_m}'))
-        elif len(stats['samples']) < 2 and res.get('nontrivial'):
-            stats['samples'].append({'case': line.partition(' M ')[2].partition(' I ')[0], 'input_index': int(k), 'impl': i_m})
+    prop.check_chunk(by_id, impl, model, stats, fails)
     for bad in impl.get('__bad__', {}).get('lines', []) + model.get('__bad__', {}).get('lines', []):
         fails.append(('bad-line', None, 0, bad))
     for line in out_i.split('\n') + out_m.split('\n'):
@@ -315,8 +288,16 @@ def run_cases(prop_name, lines, jobs=16, timeout=600):
     if not lines:
         return {'pairs': 0, 'corr_disagree': 0, 'pred_fail': 0, 'nontrivial': 0, 'outcomes': {}, 'samples': [],
                 'impl_s': 0, 'model_s': 0, 'crash': None}, []
+    import props
+    prop = props.PROPS[prop_name]
     n = max(1, min(jobs * 4, len(lines)))
-    chunks = [lines[i::n] for i in range(n)]
+    chunks = [[] for _ in range(n)]
+    gidx = {}
+    for line in lines:
+        g = prop.group_of(line)
+        if g not in gidx:
+            gidx[g] = len(gidx) % n
+        chunks[gidx[g]].append(line)
     args = [(i, c, prop_name, timeout) for i, c in enumerate(chunks) if c]
     with multiprocessing.Pool(jobs) as pool:
         results = pool.map(_worker, args)
